@@ -359,16 +359,36 @@ def build_and_run(ck, prep, per_tu=None):
     GEN.mkdir(parents=True, exist_ok=True)
     tus = [cases[i:i + per_tu] for i in range(0, len(cases), per_tu)]
     tag = "q" if quick else "t"
-    jobs = []
-    for k, cs in enumerate(tus):
-        src = GEN / f"tu_{tag}{k}.cpp"
+    t0 = time.time()
+    uncompilable = []
+
+    def build_cases(name, cs):
+        """-> [(exe, cases)]. A unit that does not compile is split until the offending case is isolated and dropped
+        (a generator gap for some rare deep type must not void the whole run; the drops are counted and bounded)."""
+        src = GEN / f"{name}.cpp"
         txt = gen_codec.emit_tu(cs)
         if not src.exists() or src.read_text() != txt:
             src.write_text(txt)
-        jobs.append((f"codec_{tag}{k}", src))
-    t0 = time.time()
+        try:
+            return [(build_tu(name.replace("tu_", "codec_"), src, prep["rt"]), cs)]
+        except vlib.Infra as e:
+            if "timed out" in str(e):
+                raise
+            if len(cs) == 1:
+                uncompilable.append({"case": cs[0]["id"], "types": [s["ctypes"] for s in cs[0]["stmts"]], "error": str(e)[-600:]})
+                return []
+            h = len(cs) // 2
+            return build_cases(name + "a", cs[:h]) + build_cases(name + "b", cs[h:])
+
     with ThreadPoolExecutor(max_workers=vlib.NCPU) as ex:
-        exes = list(ex.map(lambda j: build_tu(j[0], j[1], prep["rt"]), jobs))
+        built = list(ex.map(lambda kc: build_cases(f"tu_{tag}{kc[0]}", kc[1]), enumerate(tus)))
+    units = [u for b in built for u in b]
+    exes = [u[0] for u in units]
+    tus = [u[1] for u in units]
+    if len(uncompilable) > max(3, len(cases) // 100):
+        raise vlib.Infra(f"{len(uncompilable)} generated cases do not compile against this tree: {uncompilable[:2]}")
+    ck.extra["cases_uncompilable"] = uncompilable
+    used = {f"tu_{tag}{k}" for k in range(len(built))}
     t1 = time.time()
     with ThreadPoolExecutor(max_workers=vlib.NCPU) as ex:
         res = list(ex.map(lambda ke: run_unit(ke[1], [c["id"] for c in tus[ke[0]]]), enumerate(exes)))
@@ -377,7 +397,7 @@ def build_and_run(ck, prep, per_tu=None):
     ck.extra["compile_s"] = round(t1 - t0, 1)
     # stale generated sources of an earlier, larger run
     for old in GEN.glob(f"tu_{tag}*.cpp"):
-        if old.name not in {j[1].name for j in jobs}:
+        if old.stem.rstrip("ab") not in used:
             old.unlink()
     for k, (recs, crashes, timed_out) in enumerate(res):
         if timed_out:
